@@ -108,6 +108,36 @@ class ImageBatch(DataTensor):
         grids = [g for g in (getattr(arg, "_grid", None) for arg in args) if g is not None]
         if not grids:
             return None
+        ndim = grids[0][0].ndim + 2 if grids[0] else 0  # without accessing tensor properties
+        if ndim == 0:
+            pass  # empty batch
+        elif func in (torch.flip, Tensor.flip):
+            # Reverse order of grids when batch entries are flipped
+            dims = kwargs.get("dims", args[1:])
+            if len(dims) == 1 and isinstance(dims[0], (tuple, list)):
+                dims = dims[0]
+            if any(dim % ndim == 0 for dim in dims):
+                return list(grids[0])[::-1]
+        elif func in (torch.roll, Tensor.roll):
+            # Roll grids along with batch entries
+            shifts = kwargs.get("shifts", args[1] if len(args) > 1 else None)
+            dims = kwargs.get("dims", args[2] if len(args) > 2 else None)
+            if dims is None:
+                return None  # flattened tensor is rolled such that entries of different images are mixed
+            shifts = list(shifts) if isinstance(shifts, (tuple, list)) else [shifts]
+            dims = list(dims) if isinstance(dims, (tuple, list)) else [dims]
+            grid = list(grids[0])
+            for shift, dim in zip(shifts, dims):
+                if dim % ndim == 0 and grid:
+                    shift = shift % len(grid)
+                    grid = grid[len(grid) - shift :] + grid[: len(grid) - shift]
+            return grid
+        elif func in (torch.index_select, Tensor.index_select):
+            # Select grids of selected batch entries
+            dim = kwargs.get("dim", args[1] if len(args) > 1 else None)
+            index = kwargs.get("index", args[2] if len(args) > 2 else None)
+            if dim is not None and index is not None and dim % ndim == 0:
+                return [grids[0][i] for i in index.tolist()]
         if kwargs.get("dim", 0) == 0:
             if func == torch.cat:
                 return [g for grid in grids for g in grid]
